@@ -21,6 +21,18 @@ from . import choice
 from .report import HarnessError
 
 SRC = os.path.join(str(lib.REPO), "schwifty") + os.sep
+
+import dis  # noqa: E402
+
+_LOCAL_NAMES = [
+    "CACHE", "NOP", "RESUME", "EXTENDED_ARG", "KW_NAMES", "PUSH_NULL", "POP_TOP", "COPY", "SWAP",
+    "LOAD_CONST", "LOAD_FAST", "LOAD_FAST_CHECK", "LOAD_FAST_AND_CLEAR", "STORE_FAST", "DELETE_FAST",
+    "JUMP_FORWARD", "JUMP_BACKWARD", "JUMP_BACKWARD_NO_INTERRUPT", "RETURN_VALUE", "RETURN_CONST",
+    "BUILD_TUPLE", "BUILD_LIST", "BUILD_SLICE", "BUILD_STRING", "MAKE_FUNCTION", "LOAD_CLOSURE",
+    "MAKE_CELL", "COPY_FREE_VARS", "END_FOR", "IS_OP", "PUSH_EXC_INFO", "POP_EXCEPT",
+    "LOAD_ASSERTION_ERROR", "RETURN_GENERATOR",
+]
+LOCAL_OPS = frozenset(dis.opmap[n] for n in _LOCAL_NAMES if n in dis.opmap)
 STEP_LIMIT = 20_000_000
 
 
@@ -36,6 +48,7 @@ class State:
         self.switch_log: list = []
         self.fingerprints: set = set()
         self.forced_switches = 0
+        self.local_steps = 0
         self.error = None
 
 
@@ -46,17 +59,21 @@ class Hang(HarnessError):
 
 HANG_TIMEOUT = 20
 BLOCK_POLL = 0.02      # seconds between looks at a thread that holds the baton but makes no steps
-BLOCK_CONFIRM = 5      # consecutive polls in kernel state 'S' (sleeping) before it counts as blocked
+BLOCK_CONFIRM = 10     # consecutive polls in kernel state 'S' with no CPU time consumed before it counts as blocked
 
 
-def _thread_sleeping(native_id) -> bool:
-    """Linux: the thread's scheduler state from /proc (S = sleeping, i.e. waiting on a lock)."""
+def _thread_status(native_id):
+    """Linux: (scheduler state, CPU ticks consumed so far) of one thread from /proc.  A thread that
+    waits on a lock is in state S and consumes no CPU time; a thread that is running library code
+    outside schwifty/ (and is at worst waiting for the interpreter lock now and then, which shows as
+    S too) keeps consuming CPU time."""
     try:
         with open(f"/proc/self/task/{native_id}/stat") as f:
             data = f.read()
-        return data[data.rindex(")") + 2] == "S"
+        rest = data[data.rindex(")") + 2:].split()
+        return rest[0], int(rest[11]) + int(rest[12])
     except Exception:  # noqa: BLE001
-        return False
+        return "?", -1
 
 
 class Runner:
@@ -79,6 +96,7 @@ class Runner:
         self.blocked: set = set()    # threads stuck in a REAL lock held by a preempted thread
         self.native = [None] * n
         self.atomic = [0] * n
+        self.line_start = [False] * n
         # all workers carry the SAME thread name: names are not unique identifiers, and state keyed
         # by them must not be shared
         self.threads = [threading.Thread(target=self._loop, args=(i,), daemon=True, name="worker")
@@ -88,12 +106,19 @@ class Runner:
 
     # ---- tracing -------------------------------------------------------------------------
     def _tracer(self, tid):
-        def local(frame, event, arg):
-            if event == "line" or event == "opcode":
-                self._point(tid, frame)
-            return local
-
         opcode = self.opcode
+        # bytecode granularity: the 'line' event and the 'opcode' event of a line's first instruction
+        # are the same place - only the opcode events are scheduling points there
+        wanted = "opcode" if opcode else "line"
+
+        hybrid = opcode == "hybrid"
+
+        def local(frame, event, arg):
+            if event == wanted:
+                self._point(tid, frame)
+            elif hybrid and event == "line":
+                self.line_start[tid] = True
+            return local
 
         def modlocal(frame, event, arg):
             # a module body (an import in progress holds the interpreter's import lock for that
@@ -134,6 +159,26 @@ class Runner:
         if not others:
             return
         code = frame.f_code
+        if self.opcode == "hybrid":
+            # the FIRST preemption of an execution may fall on any instruction, every further one
+            # only on the first instruction of a source line
+            at_line = self.line_start[tid]
+            self.line_start[tid] = False
+            if st.preemptions >= 1 and not at_line:
+                return
+            if at_line:
+                pass  # a line start is a scheduling point whatever its first instruction is
+            elif code.co_code[frame.f_lasti] in LOCAL_OPS:
+                st.local_steps += 1
+                return
+        elif self.opcode and code.co_code[frame.f_lasti] in LOCAL_OPS:
+            # partial-order reduction: an instruction that only moves values between the thread's
+            # own evaluation stack, fast locals and constants commutes with everything the other
+            # threads do, so a switch right before it is equivalent to a switch before the next
+            # instruction that can touch shared memory (attribute / global / subscript access, calls,
+            # operators, truth tests, iteration) - which still gets its own scheduling point
+            st.local_steps += 1
+            return
         label = (tid, code.co_name, frame.f_lineno, frame.f_lasti) if self.opcode else (
             tid, code.co_name, frame.f_lineno)
         if self.per_line_limit is not None:
@@ -163,6 +208,7 @@ class Runner:
         self.go[to].release()
         idle = 0
         last = st.steps[to]
+        cpu0 = None
         while not self.go[me].acquire(timeout=BLOCK_POLL):
             if self.running != to or st.finished[to]:
                 idle = 0
@@ -171,7 +217,10 @@ class Runner:
                 last, idle = st.steps[to], 0
                 continue
             nid = self.native[to]
-            if nid is not None and _thread_sleeping(nid):
+            state, cpu = _thread_status(nid) if nid is not None else ("?", -1)
+            if state == "S" and cpu >= 0 and (idle == 0 or cpu == cpu0):
+                if idle == 0:
+                    cpu0 = cpu
                 idle += 1
             else:
                 idle = 0
@@ -310,25 +359,31 @@ def _cold_exec(specs, make_op, prefix, labels, opcode):
         r.close()
 
 
-def _cold_exec_ops(make_ops, prefix, labels, opcode):
+def _cold_exec_ops(make_ops, prefix, labels, opcode, per_line_limit=COLD_PER_LINE_LIMIT, readback=False):
     ops = make_ops()
-    r = Runner(len(ops), opcode, per_line_limit=COLD_PER_LINE_LIMIT)
+    r = Runner(len(ops), opcode, per_line_limit=per_line_limit)
     try:
         ch = choice.Chooser(prefix, labels)
         st = r.run(ops, ch)
-        return (ch.trace, ch.free, st.results, st.steps, st.preemptions, st.switch_log)
+        results = st.results
+        if readback:
+            # after the threads have finished: every operation once more, alone, in this process
+            results = (list(st.results), [op() for op in make_ops()])
+        return (ch.trace, ch.free, results, st.steps, st.preemptions, st.switch_log)
     finally:
         r.close()
 
 
-def explore_forked(make_ops, bound: int, opcode: bool = False):
+def explore_forked(make_ops, bound: int, opcode: bool = False, readback: bool = False):
     """Every execution in its own fork of the calling process (ops built by ``make_ops`` inside the
     child): used when a library under test carries state from one execution into the next, so that
     replaying a schedule prefix in the same process would not see the same behaviour."""
     from .par import in_child
 
     def run(ch):
-        trace, free, results, steps, pre, log = in_child(_cold_exec_ops, make_ops, ch.prefix, ch.labels, opcode)
+        # forks of a WARMED process (read-back mode): no per-line limit on switch offers
+        trace, free, results, steps, pre, log = in_child(_cold_exec_ops, make_ops, ch.prefix, ch.labels, opcode,
+                                                         None if readback else COLD_PER_LINE_LIMIT, readback)
         ch.trace, ch.free = list(trace), list(free)
         return results, steps, pre, log
 
